@@ -643,7 +643,7 @@ fn run_cached(case: &Case) -> CaseResult {
     if let Some(r) = LAST.with(|l| l.borrow().as_ref().filter(|(f, _)| *f == fp).map(|(_, r)| r.clone())) {
         return r;
     }
-    let r = run_case(case);
+    let r = crate::foreign(|| run_case(case));
     LAST.with(|l| *l.borrow_mut() = Some((fp, r.clone())));
     r
 }
@@ -658,6 +658,7 @@ fn run_case(case: &Case) -> CaseResult {
         return CaseResult::discard("malformed case");
     }
     bump(name, 0);
+    crate::set_current_case("c45b", case);
     let mut labels: Vec<String> = vec![];
     let sig = format!(
         "{name}({}{}){}{}",
